@@ -1,5 +1,6 @@
 (* repomodel: runs M-REPO on histories.  One history per line:
-     repo <b3|b2|s2|s3> <copy|hardlink|symlink|reflink> <auto|text|binary> | item ; item ; ...
+     repo <b3|b2|s2|s3> <copy|hardlink|symlink|reflink> <auto|text|binary> [fx=<P44><P41><P49><P43>] | item ; item ; ...
+   fx: the repairs the code contains (Repo/Fix.v), four characters 0 / 1; default 0000 = the code as Repo/Model.v has it
    items:  W <pathhex> <byteshex> | T <pathhex> <byteshex> | D <pathhex> | U <pathhex>
            track [m=<method>] [t=<tob>] [nc] [f] -- <pathhex>...
            carry [t=<tob>] [f] -- <pathhex>...
@@ -7,6 +8,7 @@
    Output: one observation per item, separated by " | " (see vlib/repo.py for the format). *)
 open Common
 open Model
+open Fix
 
 let bs h = bytes_of_string (string_of_hex h)
 let hx l = hex_of_string (string_of_bytes l)
@@ -87,14 +89,21 @@ let () =
             | None -> failwith "no |"
             | Some i ->
               let head = Stdlib.String.sub line 0 i and rest = Stdlib.String.sub line (i + 1) (Stdlib.String.length line - i - 1) in
-              (match words head with
-               | ["repo"; a; m; t] ->
+              let fixes_of s =
+                let bit i = if s.[i] = '1' then true else if s.[i] = '0' then false else failwith ("fixes " ^ s) in
+                if Stdlib.String.length s = 7 && Stdlib.String.sub s 0 3 = "fx="
+                then { fixed_P44 = bit 3; fixed_P41 = bit 4; fixed_P49 = bit 5; fixed_P43 = bit 6 } else failwith ("fixes " ^ s) in
+              (match (match words head with
+                      | ["repo"; a; m; t] -> Some (a, m, t, as_is)
+                      | ["repo"; a; m; t; fx] -> Some (a, m, t, fixes_of fx)
+                      | _ -> None) with
+               | Some (a, m, t, fx) ->
                  let r = ref (init_repo (algo_of a) (method_of m) (tob_of t)) in
                  let items = Stdlib.List.filter (fun s -> Stdlib.String.trim s <> "") (Stdlib.String.split_on_char ';' rest) in
                  Stdlib.String.concat " | " (Stdlib.List.map (fun s ->
-                     let (r1, oc) = do_item !r (parse_item s) in
+                     let (r1, oc) = do_item_x fx !r (parse_item s) in
                      r := r1; observe r1 oc) items)
-               | _ -> failwith "head")
+               | None -> failwith "head")
           with Failure m -> "MODEL-ERROR " ^ m in
         print_string out; print_newline ()
       end)
